@@ -2,6 +2,7 @@
 C09 — failure paths: a rejected list-protocol call of the model leaves the sequence as it was (members, slot
 names, parents) — the counterpart of a Python list being unchanged after IndexError / TypeError / ValueError.
 Strengthens `positional_step` (which only says that the slot names stay positional) on the rejection routes.
+A sort is on no rejection route: see the header of Proofs/C08Rejected.lean and Proofs/C09SortFailure.lean.
 -/
 import Proofs.C09All
 import Proofs.C08Rejected
@@ -9,7 +10,11 @@ namespace Flatland.C09.Proofs
 open Flatland.Tree Flatland.PyList Flatland.C08.Proofs
 
 /-- a rejected list-protocol call: the members (and with them `.value`, length, iteration, slot names) are what
-    they were -/
+    they were.  `seqAtomic` contains NO sort (round m1): a Python list whose `sort(key=…)` fails inside a comparison is
+    NOT unchanged — it is left in some rearrangement of its items — and the model's keyed sort never raises (it sorts
+    or answers `.unsupported`: `keyed_sort_only_refuses`), so there is nothing to state here; the rearranged-then-
+    renumbered outcome is `Proofs/C09SortFailure.lean`.  With `e = .unsupported` the statement is the model handing
+    back its input when it declines a path, not a claim about the code. -/
 theorem rejected_call_keeps_members (n : Node) (op : SeqOp) (next : Nat) (e : Exc)
     (hat : seqAtomic n op = true) (h : (seqStep n op next).out = .exc e) :
     members (seqStep n op next).node = members n ∧ (seqStep n op next).node.kids = n.kids := by
